@@ -365,3 +365,81 @@ pub fn order() -> &'static Order {
 pub fn idx_where(f: impl Fn(&RVal) -> bool) -> Vec<usize> {
     universe_vals().iter().enumerate().filter(|(_, v)| f(v)).map(|(i, _)| i).collect()
 }
+
+
+/// `--unique` (a hash set) is only coherent where jawk's `=` and its hash agree. They do not
+/// for integers of magnitude >= 2^53 against an equal double, for the literal -0, and for
+/// objects that are equal up to member order - the quantifiers of C07/C10 exclude exactly
+/// these - and there the kept rows depend on the per-process hash seed. Checks that put
+/// arbitrary generated values through --unique use this predicate to stay inside the domain.
+pub fn coherent_for_unique(input: &[u8]) -> bool {
+    // -0 (also -0.0, -0e1): a minus sign followed by zeros only
+    let mut i = 0;
+    while i < input.len() {
+        if input[i] == b'-' {
+            let mut j = i + 1;
+            let mut zero_only = j < input.len();
+            while j < input.len() && (input[j].is_ascii_digit() || matches!(input[j], b'.' | b'e' | b'E' | b'+' | b'-')) {
+                if matches!(input[j], b'1'..=b'9') {
+                    zero_only = false;
+                }
+                if matches!(input[j], b'e' | b'E') {
+                    break;
+                }
+                j += 1;
+            }
+            if zero_only && j > i + 1 {
+                return false;
+            }
+        }
+        i += 1;
+    }
+    let vals: Vec<RVal> = match parse_stream(input) {
+        Ok(v) => v.into_iter().map(|x| x.0).collect(),
+        Err(_) => {
+            // noisy input: judge the number tokens textually (16 or more digits = may reach 2^53)
+            let mut run = 0;
+            for b in input {
+                if b.is_ascii_digit() {
+                    run += 1;
+                    if run >= 16 {
+                        return false;
+                    }
+                } else if !matches!(b, b'.') {
+                    run = 0;
+                }
+            }
+            return !input.windows(2).any(|w| matches!(w[0], b'e' | b'E') && (w[1].is_ascii_digit() || matches!(w[1], b'+' | b'-')));
+        }
+    };
+    fn walk(v: &RVal, keysets: &mut Vec<Vec<String>>) -> bool {
+        match v {
+            RVal::Int(i) => i.unsigned_abs() < (1u128 << 53),
+            RVal::Float(f) => f.abs() < 9007199254740992.0,
+            RVal::Arr(a) => a.iter().all(|x| walk(x, keysets)),
+            RVal::Obj(o) => {
+                keysets.push(o.iter().map(|m| m.0.clone()).collect());
+                o.iter().all(|m| walk(&m.1, keysets))
+            }
+            _ => true,
+        }
+    }
+    let mut keysets = Vec::new();
+    if !vals.iter().all(|v| walk(v, &mut keysets)) {
+        return false;
+    }
+    // two objects with the same members in a different order
+    for (i, a) in keysets.iter().enumerate() {
+        for b in &keysets[i + 1..] {
+            if a.len() == b.len() && a.len() > 1 && a != b {
+                let (mut x, mut y) = (a.clone(), b.clone());
+                x.sort();
+                y.sort();
+                if x == y {
+                    return false;
+                }
+            }
+        }
+    }
+    true
+}
